@@ -503,6 +503,21 @@ func (x *Exec) trimSpaceSym(s *StrV, g *Term) Value {
 		return s
 	}
 	x.modeled["strings.TrimSpace(symbolic): identity; first/last byte assumed not white space"]++
+	// concrete white space at the ends of a string of concrete length is really stripped
+	if ss.Len.IsConst() {
+		isWS := func(b *Term) bool { return b.IsConst() && (b.K == ' ' || (b.K >= 9 && b.K <= 13)) }
+		lo, hi := 0, int(ss.Len.K)
+		for lo < hi && isWS(ss.B[lo]) {
+			lo++
+		}
+		for hi > lo && isWS(ss.B[hi-1]) {
+			hi--
+		}
+		if lo > 0 || hi < int(ss.Len.K) {
+			t := &StrV{Len: c.Const(64, uint64(hi-lo)), B: append([]*Term(nil), ss.B[lo:hi]...)}
+			return x.trimSpaceSym(x.strNormalize(t), g)
+		}
+	}
 	nonEmpty := c.And(g, c.Ult(c.Const(64, 0), ss.Len))
 	if fb := ss.B[0]; !fb.IsConst() {
 		x.assumes = append(x.assumes, c.Implies(nonEmpty, c.Not(isSpaceByte(c, fb))))
